@@ -154,6 +154,15 @@ def replay_one(obj, ctx, opts):
                 return out
             continue
         value = val(*ev["v"])
+        if idx % 3 == 2:
+            # re-opening the tree over its own database and root is a no-op the property allows at any
+            # point (from_db reads identically): the rest of the behaviour runs on the re-opened object
+            try:
+                tree = smt.SparseMerkleTree.from_db(tree.db, tree.root_hash, key_size=ksize, default=default)
+                count("from_db-reopen")
+            except Exception as e:  # noqa
+                out.append(("C14", "from_db-raised", {"exc": type(e).__name__}))
+                return out
         try:
             if a == "set":
                 upd = tree.set(key, value)
